@@ -169,9 +169,6 @@ DoSP3(c) ==
 Step(c) == DoObserve(c) \/ DoLock(c) \/ DoSecret(c) \/ DoUnlock1(c) \/ DoUnlock2(c)
            \/ DoSP1(c) \/ DoSP2(c) \/ DoSP3(c)
 
-StepL(c) == /\ Step(c)
-            /\ Emit([op |-> "Step", c |-> c, at |-> pc[c], kind |-> rq[c].op, chk |-> Chk])
-
 \* ---- End: the call returns to the caller ----
 End(c) ==
   /\ pc[c] = "done"
